@@ -67,7 +67,26 @@ def make_shell_classes(api):
             ncart = ((self.angmom + 1) * (self.angmom + 2)) // 2
             self.norm_cont = np.ones((self.coeffs.shape[1], ncart))
 
-    return {"base": Base, "conv": ConvShell, "pyscf": PyscfLikeShell, "unnorm": UnnormShell}
+    class CartPermShell(Base):
+        """Only the Cartesian component order differs (Molden-like: cyclic rotation of the default)."""
+
+        @property
+        def angmom_components_cart(self):
+            base = super().angmom_components_cart
+            return np.array(np.roll(base, 1, axis=0))
+
+    class SphPermShell(Base):
+        """Only the spherical component order differs (m = 0, +1, -1, ... as in iodata/pyscf files)."""
+
+        @property
+        def angmom_components_sph(self):
+            out = ["c0"]
+            for m in range(1, self.angmom + 1):
+                out += ["c%d" % m, "s%d" % m]
+            return tuple(out)
+
+    return {"base": Base, "conv": ConvShell, "pyscf": PyscfLikeShell, "unnorm": UnnormShell,
+            "cartperm": CartPermShell, "sphperm": SphPermShell}
 
 
 class Mole:
@@ -461,7 +480,7 @@ def r_make_contr(w, op):
     valid = True
     inv = op.get("invalid")
     if inv and not op["keep"]:
-        i = inv["arg"] % len(args)
+        i = [0, 1, 2, 3, 3, 3][inv["arg"] % 6]  # coord_types is the argument with the most forms
         args[i][1] = corrupt(args[i][1], args[i][2], inv["kind"])
         valid = False
     a = [x[1] for x in args]
@@ -620,7 +639,7 @@ def r_update(w, op):
                 out.append(s)
         return out
 
-    def call():
+    def mutate():
         touched = [sh]
         if what == "coeffs":
             K = sh.exps.shape[0]
@@ -654,13 +673,22 @@ def r_update(w, op):
             sh.coord_type = op["ctype"]
         elif what == "icenter":
             sh.icenter = op["icenter"]
-        for s in touched:
-            s.assign_norm_cont()
         b.touched = touched
         w.probe("param_update_then_renormalise")
-        return None
+        return touched
+
+    def renorm():
+        for s in b.touched:
+            s.assign_norm_cont()
+        return [np.array(s.norm_cont) for s in b.touched]
+
+    def call():
+        mutate()
+        return renorm()
 
     b = Bound("W", "update:" + what, call=call)
+    b.mutate = mutate
+    b.renorm = renorm
     return b
 
 
@@ -704,7 +732,11 @@ def corrupt(v, kind, k):
     if kind == "bdict":
         return [None, {}, {"Xx": []}][k % 3]
     if kind == "atoms":
-        c = k % 4
+        c = k % 6
+        if c == 4:
+            return list(v)[:-1]
+        if c == 5:
+            return list(v) + list(v)
         if c == 0:
             return list(v) + ["H"]
         if c == 1:
@@ -713,7 +745,18 @@ def corrupt(v, kind, k):
             return "".join(v)
         return None
     if kind == "ct":
-        c = k % 5
+        seq = [v] if isinstance(v, str) else list(v)
+        c = k % 12
+        if c in (5, 10, 11):
+            return seq[:1] if len(seq) != 1 else seq + seq  # one entry for many shells (or two for one)
+        if c == 6:
+            return tuple(seq[:1]) if len(seq) != 1 else tuple(seq + seq)
+        if c == 7:
+            return seq[:-1]
+        if c == 8:
+            return []
+        if c == 9:
+            return seq + seq
         if c == 0:
             return "sphericalish"
         if c == 1:
